@@ -52,6 +52,61 @@ def parseFrames (s : String) : Option Err :=
 def showToks (ts : List Tok) : String :=
   if ts.isEmpty then "-" else ",".intercalate (ts.map fun t => s!"{t.r}:{t.bytes.length}")
 
+/-! ### scripts of scanner calls (the exported `scanner.Scanner` API, incl. `ReadUntil` and `ReadN`) -/
+
+def predOf : Nat → Option (Nat → Bool)
+  | 0 => some isDigit
+  | 1 => some isLetter
+  | 2 => some isAlphanumeric
+  | 3 => some isWhitespace
+  | 4 => some (fun r => !isNewlineOrEOF r)
+  | 5 => some (fun r => r != 34)
+  | 6 => some (fun r => r == 97)
+  | 7 => some (fun _ => true)
+  | 8 => some (fun _ => false)
+  | _ => none
+
+/-- one scanner call of a script; `none` = malformed script -/
+def scanOp (op : String) (s : St) : Option (Res Range) :=
+  let arg := (op.drop 1).toString
+  match op.front with
+  | 'A' => some (match advance s with | .ok _ s' => .ok (rng s'.off s') s' | .err e s' => .err e s')
+  | 'W' => (arg.toNat?.bind predOf).map fun p => readWhile p s
+  | 'O' => (arg.toNat?.bind predOf).map fun p => readWhile1 "x" p s
+  | 'U' => (arg.toNat?.bind predOf).map fun p => readUntil "x" p s
+  | 'P' => (arg.toNat?.bind predOf).map fun p => readCharacterWith "x" p s
+  | 'C' => arg.toNat?.map fun r => readCharacter r s
+  | 'N' => arg.toNat?.map fun n => readN n s
+  | 'S' => (unhexStr arg).map fun str => readString str s
+  | 'L' => ((splitOn arg '.').mapM unhexStr).map fun ss =>
+      match readAlternative ss s with
+      | .ok (r, _) s' => .ok r s'
+      | .err e s' => .err e s'
+  | _ => none
+
+def showCur (s : St) : String := if atEOF s then "-1" else toString (cur s)
+
+partial def runScript (path : String) (all : List Tok) (ops : List String) (s : St) (acc : String) : String :=
+  match ops with
+  | [] => acc
+  | op :: rest =>
+    match scanOp op s with
+    | none => acc ++ ";bad"
+    | some (.ok r s') => runScript path all rest s' (acc ++ s!";ok:{r.start}:{r.stop}:{s'.off}:{showCur s'}")
+    | some (.err e s') => acc ++ s!";err:{showFrames e}:{s'.off}:" ++ hexStr (renderErr path all e)
+
+def handleScan (fields : List String) : Option String :=
+  match fields with
+  | ["c07scan", path, hex, script] =>
+    match unhexStr path, unhexBytes hex with
+    | some path, some b =>
+      let toks := decodeAll b.toList
+      match start toks with
+      | .err e s' => some (s!"err:{showFrames e}:{s'.off}:" ++ hexStr (renderErr path toks e))
+      | .ok _ s => some (runScript path toks (splitOn script ',') s s!"ok:{s.off}:{showCur s}")
+    | _, _ => some "bad-op"
+  | _ => none
+
 def handleStr (fields : List String) : String :=
   match fields with
   | ["utf8", hex] =>
@@ -85,7 +140,10 @@ def handleStr (fields : List String) : String :=
   | _ => "no-such-op"
 
 def handle (fields : List String) : Option String :=
-  let r := handleStr fields
-  if r = "no-such-op" then none else some r
+  match handleScan fields with
+  | some r => some r
+  | none =>
+    let r := handleStr fields
+    if r = "no-such-op" then none else some r
 
 end Knut.Driver.C07
